@@ -40,6 +40,9 @@ AdvanceByOne ==
 DeadAfterLimit ==
     (last.op \in {"seal", "open"} /\ last.pre.ovf) =>
         \/ (last.kind = "err" /\ last.err = E_MLR /\ last.post = last.pre /\ last.untouched)
+        \* a detached tag of the wrong length is refused by its deserialiser before the context is consulted
+        \/ (last.op = "open" /\ last.form = "detached" /\ last.kind = "err" /\ last.err = E_LEN
+            /\ last.post = last.pre /\ last.untouched)
         \* deviation D5 (only when the model is told to mirror it)
         \/ (~OvfFirstInOpen /\ last.op = "open" /\ last.form = "alloc"
             /\ last.kind = "err" /\ last.err = E_OPEN /\ last.post = last.pre
@@ -71,7 +74,7 @@ LastAead == IF last.op \in {"open", "seal"} THEN ctx[last.c].suite[3] ELSE last.
 TamperedRejected ==
     (OpenCall /\ ~IsVerbatim(last.plain.d) /\ last.plain.d.k # "bytes" /\ LastAead # AEAD_EXPORT) =>
         /\ last.kind = "err"
-        /\ last.err \in {E_OPEN, E_MLR, E_DEC}
+        /\ last.err \in {E_OPEN, E_MLR, E_DEC, E_LEN}
         /\ (last.err = E_MLR => last.pre.ovf)
 
 \* the in-sequence message IS accepted (completeness), anything else verbatim is not
@@ -109,7 +112,8 @@ ExportIsPure ==
 
 ExportOnlyPanics ==
     (last.op \in {"seal", "open"} /\ ctx[last.c].suite[3] = AEAD_EXPORT /\ ~last.pre.ovf
-       /\ ~(last.op = "open" /\ last.form = "alloc" /\ FALSE)) => last.kind = "panic"
+       /\ ~(last.op = "open" /\ last.form = "alloc" /\ FALSE))
+        => (last.kind = "panic" \/ (last.op = "open" /\ last.form = "detached" /\ last.err = E_LEN))
 
 (***************************************************************************)
 (* Incremental forms for trace validation: along ONE behaviour it is       *)
